@@ -17,6 +17,19 @@ pub mod c13;
 pub mod c14;
 pub mod c15;
 pub mod c16;
+#[cfg(feature = "full")]
+pub mod c17;
+#[cfg(not(feature = "full"))]
+pub mod c17 {
+    //! C17 needs the `encoding` feature: only the `full` build has it.
+    pub fn run(_ctx: &crate::common::Ctx) {
+        eprintln!("C17 needs the full build");
+        std::process::exit(2);
+    }
+    pub fn replay(_case: &serde_json::Value) -> Result<(), String> {
+        Err("C17 needs the full build".into())
+    }
+}
 pub mod c18;
 pub mod c19;
 #[cfg(feature = "full")]
@@ -69,6 +82,7 @@ table! {
     "C14" => c14::run, c14::replay;
     "C15" => c15::run, c15::replay;
     "C16" => c16::run, c01::replay;
+    "C17" => c17::run, c17::replay;
     "C18" => c18::run, c18::replay;
     "C19" => c19::run, c19::replay;
     "C20" => c20::run, c20::replay;
